@@ -48,7 +48,8 @@ def decode_backup(bdir, contents):
     try:
         with tarfile.open(fileobj=io.BytesIO(raw), mode='r:') as tf:
             for m in tf:
-                meta = {'mode': m.mode, 'uid': m.uid, 'gid': m.gid, 'mtime': int(m.mtime)}
+                # the raw header value (u64); the model reinterprets it as the code does
+                meta = {'mode': m.mode, 'uid': m.uid, 'gid': m.gid, 'mtime': int(m.mtime) % 2**64}
                 if m.isdir():
                     b['archive'].append(dict(meta, type='dir', path=m.name))
                 elif m.isreg():
